@@ -444,6 +444,9 @@ def _seg_bytes(ctx, seg):
     return None
 
 
+POW256 = z3.Function("POW256", z3.IntSort(), z3.IntSort())
+
+
 def to_int(ctx, rope: Rope, order: str, signed: bool = False):
     """int.from_bytes(rope, order, signed=signed)."""
     n = rope.length()
@@ -487,6 +490,9 @@ def to_int(ctx, rope: Rope, order: str, signed: bool = False):
         ctx.assume(val >= 0)
         if isinstance(n, int) and n <= 64:
             ctx.assume(val < 256**n)
+        elif not isinstance(n, int):
+            p = POW256(Z(n))  # 256**n as an uninterpreted function of the symbolic length
+            ctx.assume(z3.And(p >= 1, val < p))
         if signed:
             raise NotImplementedError("signed from_bytes of an opaque rope of symbolic length")
     if signed:
